@@ -1,0 +1,40 @@
+//go:build verif
+
+package conditions
+
+// Contracts read by the verification engine in /verif (govc). Comment-only file.
+//
+//@ import v1 "github.com/DataDog/extendeddaemonset/api/v1alpha1"
+//@
+//@ func getIndexForConditionType
+//@   pure
+//@   reads *status, elems(status.Conditions)
+//@   ensures nil-status: status == nil ==> result == 0 - 1
+//@   ensures range: result == 0 - 1 || (0 <= result && result < len(status.Conditions) && status.Conditions[result].Type == t)
+//@   ensures absent: result == 0 - 1 && status != nil ==> forall i int :: 0 <= i && i < len(status.Conditions) ==> status.Conditions[i].Type != t
+//@   ensures first: result >= 0 ==> forall i int :: 0 <= i && i < result ==> status.Conditions[i].Type != t
+//@   loop 1 invariant 0 <= iter() && iter() <= len(status.Conditions)
+//@   loop 1 invariant forall j int :: 0 <= j && j < iter() ==> status.Conditions[j].Type != t
+//@ func GetExtendedDaemonSetStatusCondition
+//@   transparent
+//@ func IsConditionTrue
+//@   transparent
+//@ func BoolToCondition
+//@   transparent
+//@ func NewExtendedDaemonSetCondition
+//@   transparent
+//@
+//@ func UpdateExtendedDaemonSetStatusCondition
+//@   requires status != nil
+//@   modifies status.Conditions, elems(status.Conditions)
+//@   let idx = old(getIndexForConditionType(status, t))
+//@   let write = idx >= 0 || conditionStatus == "True" || (options != nil && old(options.IgnoreFalseConditionIfNotExist))
+//@   ensures [C14] written: write ==> getIndexForConditionType(status, t) >= 0
+//@             && status.Conditions[getIndexForConditionType(status, t)].Status == conditionStatus
+//@   ensures [C14] not-written: !write ==> status.Conditions == old(status.Conditions) && getIndexForConditionType(status, t) == 0 - 1
+//@   ensures [C14] reason-when-true: conditionStatus == "True" ==> status.Conditions[getIndexForConditionType(status, t)].Reason == reason
+//@   ensures backing: root(status.Conditions) == old(root(status.Conditions)) || freshroot(status.Conditions)
+//@   ensures other-types-kept: forall u v1.ExtendedDaemonSetConditionType :: u != t ==>
+//@             (getIndexForConditionType(status, u) >= 0 <==> old(getIndexForConditionType(status, u)) >= 0)
+//@             && (getIndexForConditionType(status, u) >= 0 ==> status.Conditions[getIndexForConditionType(status, u)].Status
+//@                   == old(status.Conditions[getIndexForConditionType(status, u)].Status))
